@@ -60,7 +60,7 @@ struct Point {
 }
 
 const MODES: [&str; 3] = ["WebRtc", "Srtp", "Rtp"];
-const MEDIA: [&str; 5] = ["dc", "audio", "video", "audio+video", "dc+audio+video"];
+const MEDIA: [&str; 6] = ["dc", "audio", "video", "audio+video", "dc+audio+video", "audio+video/ans-rev"];
 const BUNDLES: [&str; 3] = ["Balanced", "MaxCompat", "MaxBundle"];
 const MUXES: [&str; 2] = ["Require", "Negotiate"];
 const ICE_WEBRTC: [&str; 5] = ["full", "lite-ans", "tcp", "tcp-only", "udpmux-ans"];
@@ -152,9 +152,10 @@ fn lattice(tier: Tier) -> Vec<Point> {
     for mode in MODES {
         let direct = mode != "WebRtc";
         let media: Vec<&'static str> = if direct {
-            pick(&MEDIA[1..4], &["audio", "audio+video"])
+            // "/ans-rev": the answering side adds its tracks in the opposite order (video first)
+            pick(&[MEDIA[1], MEDIA[2], MEDIA[3], MEDIA[5]], &["audio", "audio+video", "audio+video/ans-rev"])
         } else {
-            pick(&MEDIA, &["dc", "dc+audio+video"])
+            pick(&MEDIA, &["dc", "dc+audio+video", "audio+video/ans-rev"])
         };
         let ices: Vec<&'static str> =
             if direct { pick(&ICE_DIRECT, &["none"]) } else { pick(&ICE_WEBRTC, &["full", "udpmux-ans"]) };
@@ -298,10 +299,14 @@ fn codec(kind: &str) -> RtpCodecParameters {
     }
 }
 
-fn build_endpoint(name: &'static str, p: &Point, cfg: RtcConfiguration) -> Result<Endpoint, String> {
+fn build_endpoint(name: &'static str, p: &Point, cfg: RtcConfiguration, is_answerer: bool) -> Result<Endpoint, String> {
     let pc = PeerConnection::new(cfg);
     let mut sources = vec![];
-    for k in p.kinds() {
+    let mut kinds = p.kinds();
+    if is_answerer && p.media.ends_with("/ans-rev") {
+        kinds.reverse();
+    }
+    for k in kinds {
         let fk = if k == "audio" { FrameKind::Audio } else { FrameKind::Video };
         let (src, track, _fb) = sample_track(fk, 256);
         pc.add_track(track, codec(k)).map_err(|e| format!("{name}.add_track({k}): {e}"))?;
@@ -645,11 +650,11 @@ async fn run_point_async(p: Point, t: Timeouts) -> Outcome {
     };
     let a_offers = p.offerer == "A";
     let ts = turn_h.as_ref().map(|h| &h.server);
-    let a = match build_endpoint("A", &p, make_cfg(&p, !a_offers, mux_port, ts)) {
+    let a = match build_endpoint("A", &p, make_cfg(&p, !a_offers, mux_port, ts), !a_offers) {
         Ok(e) => e,
         Err(e) => return fail(out, "setup", e, t0),
     };
-    let b = match build_endpoint("B", &p, make_cfg(&p, a_offers, mux_port, ts)) {
+    let b = match build_endpoint("B", &p, make_cfg(&p, a_offers, mux_port, ts), a_offers) {
         Ok(e) => e,
         Err(e) => return fail(out, "setup", e, t0),
     };
@@ -1011,7 +1016,7 @@ fn main() {
     rep.set("by_mode_total_held", json!(by_mode.iter().map(|(k, v)| (k.to_string(), json!([v.0, v.1]))).collect::<BTreeMap<_, _>>()));
     rep.set("dimension_values", json!({
         "mode": MODES, "media_webrtc": if cli.tier == Tier::Quick { json!(["dc", "dc+audio+video"]) } else { json!(MEDIA) },
-        "media_direct": if cli.tier == Tier::Quick { json!(["audio", "audio+video"]) } else { json!(&MEDIA[1..4]) },
+        "media_direct": if cli.tier == Tier::Quick { json!(["audio", "audio+video", "audio+video/ans-rev"]) } else { json!([MEDIA[1], MEDIA[2], MEDIA[3], MEDIA[5]]) },
         "bundle": if cli.tier == Tier::Quick { json!(["Balanced", "MaxBundle"]) } else { json!(BUNDLES) },
         "mux": MUXES,
         "ice_webrtc": if cli.tier == Tier::Quick { json!(["full", "udpmux-ans"]) } else { json!(ICE_WEBRTC) },
